@@ -98,6 +98,11 @@ CLAIMED = {
    "DESIGN.md §4 C02",
    "Trusted: helper names memOpSetup/atomicMemOpSetup/boundsCheckInMemory as the only bounds-checking entry points, emitter-width table of the amd64 backend, wasm.Opcode constant names follow the spec mnemonics.",
    "static: per-label abstract evaluation of dispatcher arms against a spec-width oracle, must-pass-through on SSA CFG, signedness agreement lint, emitter-width agreement"),
+ "C01": ("other",
+   "Static decision of structural necessary conditions (breaking one makes some valid program diverge, crash or be rejected by one engine only): validator-accepted opcodes have arms in both engines' dispatchers (509 opcodes); all 157 interpreter operation kinds have execution arms or a listed reason to rely on the pc-advancing default; all 145 emittable SSA opcodes have side-effect/return-type entries and arms in the amd64 and arm64 lowering; 32-bit tagged interpreter arms push zero-extended values; every indirect call emission is preceded by the caller-module-context store (helper summaries see through wrappers, comparison-atom path exploration for correlated branches); amd64 and->TEST fusion only with the zero on the right (genuine defect found and fixed); both engines access the number of bytes the mnemonic dictates. Semantic equivalence of the pipelines, register allocation and encodings are not decided; a suspected arm64 ANDS-fusion defect is described in DESIGN.md but cannot be demonstrated without arm64 hardware.",
+   "DESIGN.md §4 C01",
+   "Trusted: the validator as the oracle of accepted opcodes, wasm.Opcode constant names follow the spec mnemonics, the table of six default-relying kinds and three source-tagged kinds (one line of reason each).",
+   "static: exhaustiveness over typed constants and tables, representation lint on typed syntax, must-pass-through on SSA CFG with summaries, per-label abstract evaluation of dispatcher arms"),
 }
 
 NOT_APPLICABLE = {
